@@ -332,6 +332,37 @@ Example c01_read_example_tokens :
 Proof. exact rc_read_tokens. Qed.
 End Tokens.
 
+(* rc2_file: an INTERLEAVED segment (int16 channel "a" and bool channel "b", 3
+   rows) followed by a metadata-only segment that starts a new object list with
+   just the group object (no data objects, empty raw data block): the other two
+   cases of seg_encodes *)
+Example c01_read_example2 :
+  wf_file rc2_file /\
+  sm_run rc2_file false = Ok rc2_st /\
+  build_hierarchy (rs_om rc2_st) = Ok rc2_h /\
+  segs_encode (rs_segments rc2_st) rc2_file rc2_chunks /\
+  om_paths_canonical (rs_om rc2_st) /\
+  typed_objects_are_channels (rs_om rc2_st) /\
+  rd_all (ser_file rc2_file) = Ok (expected_tokens rc2_st rc2_h (concat rc2_chunks), true).
+Proof.
+  exact (conj rc2_wf (conj rc2_run (conj rc2_hier (conj rc2_encodes
+        (conj rc2_canonical (conj rc2_typed_channels rc2_read_correct)))))).
+Qed.
+
+Section Tokens2.
+Import String.
+Local Open Scope string_scope.
+Example c01_read_example2_tokens :
+  rd_all (ser_file rc2_file) =
+  Ok ([TZ 4713; TZ 0; TZ 1; TB (hex "67"); TZ 1; TB (hex "6e"); TZ 3; TB (hex "6869"); TZ 2;
+       TB (hex "61"); TB (hex "67"); TB rc_path_a; TZ 2; TZ 3; TZ 0;
+       TZ 0; TZ 3; TB (hex "0102"); TB (hex "0304"); TB (hex "0506");
+       TB (hex "62"); TB (hex "67"); TB rc_path_b; TZ 33; TZ 3; TZ 0;
+       TZ 0; TZ 3; TB (hex "01"); TB (hex "00"); TB (hex "01");
+       TZ 0; TZ 0], true).
+Proof. exact rc2_read_tokens. Qed.
+End Tokens2.
+
 Print Assumptions sm_segment_positions.
 Print Assumptions sm_segment_positions_nth.
 Print Assumptions sm_run_trace.
@@ -355,3 +386,5 @@ Print Assumptions read_correct.
 Print Assumptions read_correct_tokens.
 Print Assumptions c01_read_example.
 Print Assumptions c01_read_example_tokens.
+Print Assumptions c01_read_example2.
+Print Assumptions c01_read_example2_tokens.
